@@ -216,9 +216,20 @@ def check(run):
     # behavioural half: C10 / C11 C++ contracts for all four configurations
     cxx_runtime.check_c10(run)
     cxx_runtime.check_c11(run)
+    from checks import cxx_filter
+
+    cxx_filter.config_max_dt_literal(run, "C12")
 
 
 def replay_file(payload):
+    if (payload.get("inputs") or {}).get("config_literal"):
+        from checks import cxx_filter
+        from pvc import driver as _d
+
+        r = _d.PropertyRun("C12", "quick", 0)
+        cxx_filter.config_max_dt_literal(r, "C12")
+        print("replay config literal:", [f.what for f in r.findings][:2] or "exact")
+        return not r.findings
     inp = payload["inputs"]
     if "n_sensors" in inp:
         _, problems = matrix_case((inp["has_control"], inp["has_calibration"], inp["n_sensors"], inp.get("seed", 0)))
